@@ -22,7 +22,10 @@ RESULT_KEYS = ["final_strategies", "reachability_strategies", "rewards", "probab
                "n_iterations_rew", "prob_min_rew", "rew_min_reach"]
 
 
-def alphabet():
+API_ONLY = ("fr", "dc")       # games whose values have no literal form: only run through run_games(), never written to a file
+
+
+def alphabet(api_only=False):
     """name -> game: 5 solvable, 2 unsolvable when pruned, 3 malformed; 'x' and 'x_no_prune' collide on purpose"""
     fig55 = CR.read_dict_from_file(os.path.join(REPO, "inputs", "example_games.py"))["game_5_5"]
     g = {k: copy.deepcopy(fig55[k]) for k in ("rewards", "players", "transition_list", "final_states")}
@@ -76,8 +79,19 @@ def alphabet():
     tw_legal["transition_list"][3] = [(1.0, 3)]
     tw_legal["transition_list"][4] = [(True, 4)]
     tw_legal["final_states"] = (3,)
-    return [("g", g), ("x", x), ("game_a", game_a), ("d_p1", d), ("lp", lp), ("x_no_prune", u1), ("g_1", u2), ("m_1", m1), ("b2", m2), ("nf", nf),
-            ("tw", tw), ("tw_float", tw_float), ("tw_lists", tw_lists), ("tw_tuple", tw_tuple), ("tw_legal", tw_legal)]
+    out = [("g", g), ("x", x), ("game_a", game_a), ("d_p1", d), ("lp", lp), ("x_no_prune", u1), ("g_1", u2), ("m_1", m1), ("b2", m2), ("nf", nf),
+           ("tw", tw), ("tw_float", tw_float), ("tw_lists", tw_lists), ("tw_tuple", tw_tuple), ("tw_legal", tw_legal)]
+    if api_only:
+        # values that are numbers but not built-in literals: rational rewards (whatever the solver does with them alone, it must do in a
+        # batch) and a decimal probability
+        from fractions import Fraction
+        from decimal import Decimal
+        fr = copy.deepcopy(tw)
+        fr["rewards"] = [0, Fraction(5, 2), Fraction(1, 2), 0, 0]
+        dc = copy.deepcopy(tw)
+        dc["transition_list"][1] = [(Decimal("0.5"), 3), (Decimal("0.5"), 4)]
+        out += [("fr", fr), ("dc", dc)]
+    return out
 
 
 def pair_alphabet(stride=1, offset=0):
@@ -202,6 +216,9 @@ def render(d, style):
 
 
 # ------------------------------------------------------------------------------------------- report parser
+
+STALE_REPORT = ("=" * 160 + "\n" + "Running example         : stale entry of an earlier run\n" + "Message                 : Game solved\n" * 12) * 40
+
 
 def parse_report(text):
     """independent parser: blocks are introduced by a line of 160 '=', every line is a 24-character label, ': ', value"""
